@@ -62,6 +62,8 @@ fn crafted(base: &SectionHeader, flen: u64) -> Vec<SectionHeader> {
         mk(flen - 1, 1, abi::SHT_PROGBITS, 0, 1),       // touches EOF
         mk(flen, 0, abi::SHT_PROGBITS, 0, 1),           // empty at EOF
         mk(flen, 1, abi::SHT_PROGBITS, 0, 1),           // one past EOF
+        mk(flen + 1, 0, abi::SHT_PROGBITS, 0, 1),       // empty, strictly past EOF
+        mk(flen + 9, 0, abi::SHT_NOTE, 0, 4),           // empty, strictly past EOF, typed view
         mk(flen - 1, 2, abi::SHT_STRTAB, 0, 1),         // starts inside, ends outside
         mk(a, n, abi::SHT_NOBITS, 0, 1),                // NOBITS over real bytes
         mk(a, u64::MAX, abi::SHT_PROGBITS, 0, 1),       // overflowing size
@@ -156,7 +158,7 @@ fn s_small_impl(enc: Enc, full: bool) -> Image {
         // keep the crafted headers that create distinct cache keys: shared start, shared end, same range
         // under other types, empty, EOF-touching, beyond EOF, compressed
         let nfile = 6; // null + 4 sections + .shstrtab
-        let keep = [0usize, 1, 2, 3, 4, 5, 7, 11];
+        let keep = [0usize, 1, 2, 3, 4, 5, 7, 8, 13];
         let crafted: Vec<SectionHeader> = keep.iter().map(|k| img.shdr_pool[nfile + k]).collect();
         img.shdr_pool.truncate(nfile);
         img.shdr_pool.extend(crafted);
@@ -336,7 +338,7 @@ impl SModel {
         }
     }
 
-    fn scripts(&self, hist: &[Act], kind: &ActKind, prefix: Vec<(u32, Choice)>, budget: u32, out: &mut Vec<Vec<(u32, Choice)>>) {
+    pub fn scripts(&self, hist: &[Act], kind: &ActKind, prefix: Vec<(u32, Choice)>, budget: u32, out: &mut Vec<Vec<(u32, Choice)>>) {
         if budget == 0 {
             return;
         }
@@ -769,6 +771,78 @@ pub fn stream_cases(tier: Tier, _which: Which) -> Vec<StreamCase> {
     v.push(StreamCase { make: tiny_img, enc: encs[0], dev: 0, max_depth: Some(tier.pick(2, 3)), label: "tiny_full_dev0" });
     v.push(StreamCase { make: tiny_img, enc: encs[1], dev: 1, max_depth: Some(tier.pick(1, 2)), label: "tiny_full_dev1" });
     v
+}
+
+// ------------------------------------------------------------------ cache-occupancy sweep
+/// Linear histories: n distinct one-byte ranges are loaded first (n = 0..=max), then one op is
+/// issued; for every n and every op the answer must equal the slice parser's (C07), stay inside
+/// its designated ranges and allocation bound (C08) and, with one injected fault in the final op,
+/// be an error or the fault-free answer (C17). Covers behaviour that depends on how full the
+/// range cache is, which the BFS over small images cannot reach (depth = number of ranges).
+pub struct Occupancy {
+    pub which: Which,
+    pub max: usize,
+}
+fn occupancy_image(enc: Enc) -> Image {
+    let (b, _) = tiny_full(enc, TableOrder::Linker);
+    let mut img = image_from_bytes(&format!("tiny-full/{}", enc.name()), b.bytes, None, &[".dynsym", ".absent"], 64);
+    let base = img.shdr_pool.len();
+    // filler headers: distinct one-byte ranges [i, i+1)
+    for i in 0..80u64 {
+        img.shdr_pool.push(SectionHeader { sh_name: 0, sh_type: abi::SHT_PROGBITS, sh_flags: 0, sh_addr: 0, sh_offset: 100 + i, sh_size: 1, sh_link: 0, sh_info: 0, sh_addralign: 1, sh_entsize: 0 });
+    }
+    img.names.push(format!("{}", base)); // remember where the fillers start
+    img
+}
+impl Space for Occupancy {
+    fn name(&self) -> String {
+        format!("{:?}: cache-occupancy sweep on the tiny-full skeleton: n = 0..={} distinct ranges loaded, then each of the ops (and, for C17, each single fault in it); 2 encodings", self.which, self.max)
+    }
+    fn size(&self) -> u64 {
+        2 * (self.max as u64 + 1)
+    }
+    fn describe(&self, idx: u64) -> Value {
+        json!({"encoding": ENCS[if idx % 2 == 0 { 2 } else { 1 }].name(), "ranges_loaded_first": idx / 2, "then": "every op of the image once, each on a fresh stream with that history"})
+    }
+    fn run(&self, idx: u64, out: &mut Outcome) {
+        let enc = ENCS[if idx % 2 == 0 { 2 } else { 1 }];
+        let n = (idx / 2) as usize;
+        let img = occupancy_image(enc);
+        let base: usize = img.names.last().unwrap().parse().unwrap();
+        let ops: Vec<Op> = img.ops.clone();
+        let model = SModel::new(img, self.which, 0);
+        let mut dig = crate::util::Fnv::new();
+        for op in ops {
+            // history: open, n filler loads
+            let mut s = model.init_states()[0].clone();
+            s = match model.step(&s, &Act { kind: ActKind::Open, script: vec![] }) {
+                Some(x) => x,
+                None => return,
+            };
+            for k in 0..n {
+                s = match model.step(&s, &Act { kind: ActKind::Op(Op { kind: OpKind::SectionData, arg: (base + k) as u16 }), script: vec![] }) {
+                    Some(x) => x,
+                    None => return,
+                };
+            }
+            let mut scripts: Vec<Vec<(u32, Choice)>> = vec![vec![]];
+            if self.which == Which::C17 {
+                model.scripts(&s.hist, &ActKind::Op(op), Vec::new(), 1, &mut scripts);
+            }
+            for sc in scripts {
+                if let Some(t) = model.step(&s, &Act { kind: ActKind::Op(op), script: sc.clone() }) {
+                    out.transitions += 1;
+                    dig.u64(t.fp as u64);
+                    if let Some(bad) = t.bad.or(s.bad.clone()) {
+                        let key = if bad.contains("panic") { format!("panic:ElfStream in {}", panic_site(&bad)) } else { format!("occupancy:{:?} after {} cached ranges", op.kind, n) };
+                        out.violate(key, format!("{} cached ranges, then {:?} with env script {:?}: {}", n, op, sc, bad));
+                        return;
+                    }
+                }
+            }
+        }
+        out.nontrivial(dig.get() ^ idx);
+    }
 }
 
 // ------------------------------------------------------------------ engine-L oracles for the stream parser
